@@ -7,7 +7,7 @@
 From Coq Require Import String Ascii List Bool Arith Lia.
 From Shoot Require Import Base.Str Base.GoVal Model.Transfer Model.CtorDirective Model.Ctor Model.CtorSpec Model.CtorGetSet.
 From Shoot Require Import Proofs.GoValProofs Proofs.CtorFlattenProofs Proofs.CtorResolveProofs Proofs.CtorNewProofs
-                          Proofs.CtorC02Proofs Proofs.CtorOrderProofs.
+                          Proofs.CtorC02Proofs Proofs.CtorOrderProofs Proofs.CtorOptProofs.
 Import ListNotations.
 Local Open Scope list_scope.
 
@@ -542,7 +542,8 @@ Proof.
     destruct (if fl_getset fl then parse_get_set (fd_doc fd) n else Some (false, false)) as [[get set]|]; [|discriminate].
     destruct (raw_names fl fd is_new names) as [r| |] eqn:Er; try discriminate.
     inversion H; subst l. destruct He as [He|He]; [|eapply IH; eauto].
-    subst e. unfold top_entry, star_type, star_of_ty. destruct (qualified_name (fd_ty fd)). reflexivity.
+    subst e. rewrite top_entry_ty. unfold top_entry, star_type, star_of_ty.
+    destruct (qualified_name (fd_ty fd)). reflexivity.
 Qed.
 
 Lemma relevant_star : forall pkg fl fuel fds raw e,
@@ -577,7 +578,7 @@ Proof.
   unfold getset_of in H.
   destruct (flatten pkg fl fuel sd) as [[fs hn]| |] eqn:EF; try discriminate.
   inversion H; subst fields d nd. clear H.
-  destruct (flatten_is_marked_raw _ _ _ _ _ _ EF) as [raw [Hraw [Hfs _]]]. subst fs.
+  destruct (flatten_is_marked_raw _ _ _ _ _ _ EF) as [raw [Hraw [Hfs Hhn]]]. subst fs hn.
   destruct (c03_guard_parts _ _ _ _ G) as [G2 [GE _]].
   destruct (c02_guard_parts _ _ _ G2) as [GB [GW [GU [GN [_ [_ [GX _]]]]]]].
   (* the type map at a marked entry's name *)
@@ -605,8 +606,9 @@ Proof.
       rewrite Hn'. unfold e. symmetry. apply mark_with_name. }
   (* the lists are the marked entries *)
   unfold make_getset in *. destruct (type_switch fl sd) as [gt st] eqn:ES. cbn [gs_getters gs_setters] in *.
-  unfold mark at 1 2 3 4, markmap in T1, T2 |- *.
-  rewrite (loop_keeps pkg v fuel gt st (mark_with raw) (mark_with_keeps raw)) in *.
+  assert (LM : forall a, make_getset_loop pkg v fuel gt st (mark raw) a = make_getset_loop pkg v fuel gt st raw a).
+  { intros a. unfold mark, markmap. apply (loop_keeps pkg v fuel gt st (mark_with raw) (mark_with_keeps raw)). }
+  rewrite !LM in *.
   destruct (loop_lists pkg v fuel gt st raw empty_gs_acc) as [L1 L2].
   { intros l1 e l2 E R. split; [intros []|]. eapply raw_first_of_name; eauto. }
   rewrite L1 in T1 |- *. rewrite L2 in T2 |- *. cbn [ga_get ga_set empty_gs_acc app] in *.
